@@ -121,7 +121,8 @@ def cmd_check(a):
                 want = max(want, 400)
             witness = None
             if do_diff and sym_ not in plain_functions and (e is None or not e.startswith("spec_")):
-                witness, cases, why = check.find_witness(sym_, seed, want=want, runner=runner)
+                witness, cases, why = check.find_witness(sym_, seed, want=want, runner=runner,
+                                                         candidates=[o.get("model_input") for o in refuted])
                 if why is None:
                     bounded.append({"function": sym_, "bound": "admissible generated inputs, arrays <= %d elements" % difftest.IN_SIZE,
                                     "cases": cases, "mismatch": bool(witness)})
